@@ -15,6 +15,7 @@ import (
 	"encoding/json"
 	"fmt"
 	"math/big"
+	"os"
 	"regexp"
 	"strings"
 
@@ -149,7 +150,8 @@ func Start(c *core.Ctx, o Opts) *World {
 		if o.SmallPrune && t.Chance(3, 4) {
 			cfg.B = cfg.A + 2 + t.Draw(10)
 		}
-		if o.SmallPrune && o.LargeEvery > 0 && t.Chance(1, o.LargeEvery) {
+		// VERIF_NO_LARGE=1 (debugging aid, never set by a registered command): no long chain runs
+		if o.SmallPrune && o.LargeEvery > 0 && t.Chance(1, o.LargeEvery) && os.Getenv("VERIF_NO_LARGE") != "1" {
 			// long chain mode: 900-2700 headers up front, prune depth in the hundreds, so that pruning,
 			// saving and loading cross the 1000-header file boundaries
 			cfg.D = 1
